@@ -456,9 +456,17 @@ class Sim:
         if kind in ("bad", "bad_rsv", "bad_utf8", "big"):
             # the peer violates the protocol: with failByDrop=False WE start a closing handshake (1002 / 1007 / 1009),
             # with failByDrop=True the transport is dropped at once
+            mask = MASK if self.role == "server" else None
+            if kind == "big" and not (0 < (self.opts.get("maxMessagePayloadSize") or 0) < 300):
+                # no limit configured: an ordinary 300-byte binary message, i.e. plain data traffic
+                if self.msg_open:
+                    return
+                if self.pending_ping and self.restart and self.T > 0:
+                    self.react_ping(now)
+                ep.feed(ref.encode_frame(ref.OP_BIN, b"B" * 300, mask=mask))
+                return
             if self.our_close_at is None and self.phase == "open":
                 self.close_cause = self.close_cause or ("fail:" + kind)
-            mask = MASK if self.role == "server" else None
             if kind == "bad":
                 data = self.frame(3, b"")                                          # reserved opcode
             elif kind == "bad_rsv":
@@ -468,6 +476,12 @@ class Sim:
             else:
                 data = ref.encode_frame(ref.OP_BIN, b"B" * 300, mask=mask)      # > maxMessagePayloadSize (when configured)
             self.msg_open = False
+            if self.pending_ping and self.restart and self.T > 0:
+                # a (violating) non-control frame is still traffic: whether it stands in for the pong is left open, so the
+                # ping deadline becomes grey and the peer no longer knows a ping it could answer (no cadence expectation either)
+                self.react("ping", now, force_grey=True)
+                self.prev_ping_payload = self.pending_ping[1]
+                self.pending_ping = None
             ep.feed(data)
             return
         raise ValueError("unknown action %r" % (kind,))
